@@ -4,6 +4,7 @@ import (
 	"fmt"
 	"reflect"
 	"strings"
+	"time"
 
 	"verif/mc"
 	"verif/ref"
@@ -178,6 +179,9 @@ func c10Work(c *mc.Ctx) {
 		return
 	}
 	unit := 0
+	if c.Owns(0) {
+		c10CompatAppend(c)
+	}
 	for _, it := range c10Types() {
 		for _, cfg := range []ref.Cfg{{}, {ProtoArrays: true}} {
 			if ref.ClassOf(cfg, it.T, "") == ref.CR {
@@ -412,5 +416,130 @@ func c10Run(c *mc.Ctx, pre string, cfg ref.Cfg, it ref.Item, p0 ref.V, alias int
 	c.Outcome("ok")
 	if c.WantSample() {
 		c.Sample(map[string]any{"cfg": cfg.String(), "type": t.String(), "prior": ref.Str(t, p0), "history": hs, "executions(env choices)": x.Execs})
+	}
+}
+
+// c10CompatAppend: the repeated-field form read by a DEFAULT-mode instance (the compatibility path:
+// a list field may arrive as repeated length-delimited fields and is then appended element by
+// element). Data is written by an instance with ProtoCompatibleArrays and decoded by a default one
+// into targets that already hold elements - with no, some or exactly no spare capacity, the spare
+// capacity holding stale elements: the result must be the prior elements followed by the decoded
+// ones, exactly, and the prior elements' own memory must not be written.
+func c10CompatAppend(c *mc.Ctx) {
+	type el struct {
+		A int    `plenc:"1"`
+		B string `plenc:"2"`
+		P *int   `plenc:"3"`
+	}
+	type holder struct {
+		S  []string    `plenc:"1"`
+		E  []el        `plenc:"2"`
+		PE []*el       `plenc:"3"`
+		By [][]byte    `plenc:"4"`
+		T  []time.Time `plenc:"5"`
+		Z  int         `plenc:"9"`
+	}
+	seven := 7
+	stale := el{A: 99, B: "stale", P: &seven}
+	mkEls := func(n, from int) []el {
+		var out []el
+		for i := 0; i < n; i++ {
+			switch (from + i) % 3 {
+			case 0:
+				out = append(out, el{A: from + i + 1}) // B and P absent from the data
+			case 1:
+				out = append(out, el{B: fmt.Sprint("b", from+i)})
+			default:
+				out = append(out, el{})
+			}
+		}
+		return out
+	}
+	writer := NewPlenc(ref.Cfg{ProtoArrays: true})
+	if !c.Begin(`{"set":"compat-append"}`) {
+		return
+	}
+	c.AddEvals(-1)
+	c.Dim("compat-append")
+	for priorLen := 0; priorLen <= 9; priorLen++ {
+		for _, spare := range []int{0, 1, 3, 8} {
+			for newLen := 0; newLen <= 9; newLen++ {
+				c.AddEvals(1)
+				c.Count("states", 1)
+				c.AddNonTrivial(1)
+				sig := "compat-append|"
+				c.Guard(sig, func() {
+					// the prior target: priorLen elements, spare capacity filled with stale elements
+					var tgt holder
+					full := make([]el, priorLen+spare)
+					fullS := make([]string, priorLen+spare)
+					fullP := make([]*el, priorLen+spare)
+					fullB := make([][]byte, priorLen+spare)
+					fullT := make([]time.Time, priorLen+spare)
+					for i := range full {
+						full[i], fullS[i], fullP[i], fullB[i], fullT[i] = stale, "stale", &stale, []byte("stale"), time.Unix(99, 0).UTC()
+					}
+					prior := mkEls(priorLen, 100)
+					copy(full, prior)
+					tgt.E = full[:priorLen]
+					tgt.S, tgt.PE, tgt.By, tgt.T = fullS[:priorLen], fullP[:priorLen], fullB[:priorLen], fullT[:priorLen]
+					var wantS []string
+					var wantP []*el
+					var wantB [][]byte
+					var wantT []time.Time
+					for i := 0; i < priorLen; i++ {
+						fullS[i], fullP[i], fullB[i], fullT[i] = fmt.Sprint("p", i), &el{A: i}, []byte{byte(i)}, time.Unix(int64(i), 0).UTC()
+						wantS, wantP, wantB, wantT = append(wantS, fullS[i]), append(wantP, &el{A: i}), append(wantB, []byte{byte(i)}), append(wantT, fullT[i])
+					}
+					src := holder{E: mkEls(newLen, 0), Z: 5}
+					for i := 0; i < newLen; i++ {
+						src.S = append(src.S, fmt.Sprint("n", i%2*i)) // includes empty-ish repeats
+						src.PE = append(src.PE, &el{B: fmt.Sprint(i)})
+						src.By = append(src.By, []byte{1, byte(i)})
+						src.T = append(src.T, time.Unix(int64(1000+i), int64(i)).UTC())
+					}
+					data, err := writer.Marshal(nil, &src)
+					if err != nil {
+						c.Violation(sig+"marshal-error", err.Error())
+						return
+					}
+					reader := NewPlenc(ref.Cfg{})
+					if err := reader.Unmarshal(data, &tgt); err != nil {
+						c.Violation(sig+"unmarshal-error", fmt.Sprintf("prior %d spare %d new %d: %v", priorLen, spare, newLen, err))
+						return
+					}
+					c.Ops(2)
+					want := holder{E: append(append([]el(nil), prior...), src.E...), S: append(wantS, src.S...), PE: append(wantP, src.PE...), By: append(wantB, src.By...), T: append(wantT, src.T...), Z: 5}
+					if bad := badSliceHeader(reflect.ValueOf(&tgt).Elem(), ""); bad != "" {
+						c.Violation(sig+"decoded-slice-header-corrupt", bad)
+						return
+					}
+					norm := func(h holder) string {
+						// (an empty prior slice stays empty and non-nil when nothing is appended: not a difference)
+						if len(h.S) == 0 {
+							h.S = nil
+						}
+						if len(h.E) == 0 {
+							h.E = nil
+						}
+						if len(h.PE) == 0 {
+							h.PE = nil
+						}
+						if len(h.By) == 0 {
+							h.By = nil
+						}
+						if len(h.T) == 0 {
+							h.T = nil
+						}
+						return canon(reflect.ValueOf(h))
+					}
+					if got, w := norm(tgt), norm(want); got != w {
+						c.Violation(sig+"appended-result-differs", fmt.Sprintf("prior %d elements, %d spare (stale) slots, %d decoded elements:\n got  %s\n want %s", priorLen, spare, newLen, trunc200(got), trunc200(w)))
+						return
+					}
+					c.Outcome("ok")
+				})
+			}
+		}
 	}
 }
